@@ -143,10 +143,14 @@ def composite(rng, notation, earlier):
     vs = [e[i + 1] for i, c in enumerate(e[:-1]) if c in QV[notation] and e[i + 1] in 'xyzv'] or [c for c in e if c in 'xyzv']
     v = rng.choice(vs) if vs and rng.random() < 0.75 else rng.choice('xyzv')
     q = rng.choice(QV[notation])
+    # a variable-free sentence for sibling scopes (a vacuous quantifier next to a scope that uses the variable)
+    g = rng.choice(('a', 'Na', 'b2') if notation == 'polish' else ('A', '~A', 'B2'))
     if notation == 'polish':
-        return rng.choice(('%s%sK%sF%s' % (q, v, e, v), '%s%sAF%s%s' % (q, v, v, e), 'K%s%s' % (e, e), 'N%s' % e))
+        return rng.choice(('%s%sK%sF%s' % (q, v, e, v), '%s%sAF%s%s' % (q, v, v, e), 'K%s%s' % (e, e), 'N%s' % e,
+                           'K%s%s%s%s' % (e, q, v, g), 'A%s%s%s%s' % (q, v, g, e), 'K%s%s%sF%s' % (e, q, v, v)))
     return rng.choice(('%s%s(%s & F%s)' % (q, v, e, v), '%s%s(F%s V %s)' % (q, v, v, e), '%s%s((%s) V F%s)' % (q, v, e, v),
-                       '(%s) & (%s)' % (e, e), '~%s' % e))
+                       '(%s) & (%s)' % (e, e), '~%s' % e,
+                       '(%s) & %s%s%s' % (e, q, v, g), '%s%s%s V (%s)' % (q, v, g, e), '(%s) & %s%sF%s' % (e, q, v, v)))
 
 def gen_inputs(rng, cfg, n):
     notation = cfg['notation']
@@ -155,11 +159,12 @@ def gen_inputs(rng, cfg, n):
     pending = []
     for _ in range(n):
         if pending:
-            out.append(pending.pop(0))
-            continue
+            # (prefix sweeps come on top of the history's n inputs, they do not displace them)
+            out.extend(pending)
+            pending = []
         r = rng.random()
         short = [x for x in out if 3 <= len(x) <= 60]
-        if short and rng.random() < 0.1:
+        if short and rng.random() < 0.07:
             # prefer earlier inputs that bind a variable and have a binary connective
             qs, bs = QV[notation], ('KACUEB' if notation == 'polish' else '&V>$<%')
             rich = [x for x in short if any(c in x for c in qs) and any(c in x for c in bs)]
@@ -186,7 +191,7 @@ def gen_inputs(rng, cfg, n):
                 text = mutate(rng, text, alpha)
                 if rng.random() < 0.2:
                     text = mutate(rng, text, alpha)
-            if len(text) <= 24 and rng.random() < 0.12:
+            if len(text) <= 20 and rng.random() < 0.1:
                 # end of input at every instant: all proper prefixes, longest first
                 pending.extend(text[:k] for k in range(len(text) - 1, 0, -1))
         elif r < 0.9:
@@ -194,6 +199,7 @@ def gen_inputs(rng, cfg, n):
         else:
             text = ''.join(rng.choice(alpha) for _ in range(rng.choice((0, 1, 2))))
         out.append(text[:200])      # (deep_input() strings above are exempt from this cap)
+    out.extend(pending)
     return out
 
 class Budget(Exception):
